@@ -60,8 +60,7 @@ def reachable_from(eng, entry):
     return seen
 
 
-KNOWN_UNSUMMARISED = {('connection.H2ConnectionStateMachine.process_input',
-                       'func')}
+KNOWN_UNSUMMARISED = set()   # (function, callee text) pairs; none needed
 
 
 def require_summaries(ctx, eng, reach):
